@@ -140,8 +140,45 @@ def witness_from_trace(trace, vars_):
     return w
 
 
+def merge_parts(u, parts):
+    """Merge the results of the per-function runs of a unit that enforces several contracts."""
+    res = dict(parts[0])
+    res['unit'] = u['name']
+    res['enforce'] = u.get('enforce')
+    for k in ('obligations', 'discharged', 'unknown', 'flat_address_space_uses'):
+        res[k] = sum(p.get(k, 0) or 0 for p in parts)
+    res['time_s'] = round(sum(p.get('time_s', 0) or 0 for p in parts), 2)
+    res['solver_time_s'] = round(sum(p.get('solver_time_s', 0) or 0 for p in parts), 2)
+    res['failures'] = [f for p in parts for f in p.get('failures', [])]
+    byc = {}
+    for p in parts:
+        for k, v in (p.get('by_class') or {}).items():
+            byc[k] = byc.get(k, 0) + v
+    res['by_class'] = byc
+    res['samples'] = [x for p in parts for x in p.get('samples', [])][:6]
+    res['checker_cmd'] = ' ;; '.join(p.get('checker_cmd') or '' for p in parts)
+    res['canary'] = 'FAILURE' if all(p.get('canary') == 'FAILURE' for p in parts) else next((p.get('canary') for p in parts if p.get('canary') != 'FAILURE'), None)
+    if any(p['status'] == 'failed' for p in parts):
+        res['status'] = 'failed'
+    else:
+        bad = next((p for p in parts if p['status'] != 'ok'), None)
+        res['status'] = bad['status'] if bad else 'ok'
+        res['detail'] = bad.get('detail') if bad else None
+    return res
+
+
 def build_unit(u, tier, extra_defs=(), tag='', trace=False):
     """Extract, compile, instrument, run cbmc for one unit.  Returns a result dict."""
+    enf = u.get('enforce')
+    if isinstance(enf, list) and len(enf) > 1:
+        # goto-instrument --dfcc checks ONE contract per run (with several --enforce-contract options only the first is
+        # enforced, silently): a unit that names several functions is run once per function and the results are merged
+        parts = []
+        for f in enf:
+            u2 = dict(u)
+            u2['enforce'] = f
+            parts.append(build_unit(u2, tier, extra_defs, tag + '.' + f, trace))
+        return merge_parts(u, parts)
     name = u['name']
     bdir = os.path.join(BUILD, name + tag)
     shutil.rmtree(bdir, ignore_errors=True)
